@@ -23,7 +23,7 @@ RULE = (
     "import block of 2-7 statements over 9 forms x usage pattern per imported name (6 patterns) x action (5) x 3 boolean "
     "preferences x module placement (top level | inside a package); non-trivial = the action changed the text and the block had "
     ">= 3 statements of >= 2 forms; distinct by case hash"
-    "; 19 import forms incl. `import pkg`, multi-name relative from-imports and relative star imports with a top-level namesake module"
+    "; 21 import forms incl. names spelled like builtins, a star import that passes on imported modules, `import pkg`, multi-name relative from-imports and relative star imports with a top-level namesake module"
 )
 ASSUMPTIONS = [
     "the observable meaning of the module is what main.py prints: every used name's value, every __all__ name, every name other.py takes",
@@ -43,7 +43,10 @@ FORMS = {
     "from_lib_multi": ("from lib import f3, C1", {"f3": "f3()", "C1": "C1().v"}),
     "from_pkg_mod": ("from pkg import b", {"b": "b.y2"}),
     "from_pkg_a": ("from pkg.a import x2", {"x2": "x2"}),
-    "star": ("from lib import *", {"f4": "f4()"}),
+    "star": ("from lib import *", {"f4": "f4()", "input": "input()"}),
+    # names spelled like builtins, and a star import of a module without __all__ that passes on the modules IT imported
+    "from_lib_builtin": ("from lib import open", {"open": "open()"}),
+    "star2": ("from lib2 import *", {"h1": "h1()", "json": "len(json.dumps(1))", "osp": "len(osp.sep)"}),
     "stdlib_used": ("import os", {"os": "len(os.sep)"}),
     "stdlib_multi": ("import sys, json", {"sys": "len(sys.argv[:0])", "json": "len(json.dumps(1))"}),
     "stdlib_unused": ("import re", {}),
@@ -86,7 +89,8 @@ def strategy(tier):
 
 def render(case):
     files = {
-        "lib.py": "TAG = 6\ndef f1():\n    return 1\ndef f2():\n    return 2\ndef f3():\n    return 3\ndef f4():\n    return 4\nclass C1:\n    def __init__(self):\n        self.v = 5\n__all__ = ['f1', 'f2', 'f3', 'f4', 'C1']\n",
+        "lib.py": "TAG = 6\ndef f1():\n    return 1\ndef f2():\n    return 2\ndef f3():\n    return 3\ndef f4():\n    return 4\nclass C1:\n    def __init__(self):\n        self.v = 5\ndef open():\n    return 7\ndef input():\n    return 8\n__all__ = ['f1', 'f2', 'f3', 'f4', 'C1', 'open', 'input']\n",
+        "lib2.py": "import json\nimport os.path as osp\ndef h1():\n    return 9\n",
         "pkg/__init__.py": "P0 = 41\nTAG = 46\n",
         "b.py": "y1 = 91\nq2 = 92\n",  # a top-level namesake of pkg/b.py: a relative import must stay relative
         "pkg/a/__init__.py": "x1 = 11\nx2 = 12\nTAG = 16\n",
@@ -171,7 +175,7 @@ def hazards(case):
         if u == "reexport_only":
             hz.add("reexport_without_all_removed_as_unused")
         if u == "all_only":
-            if forms & {"star", "rel_star"}:
+            if forms & {"star", "rel_star", "star2"}:
                 hz.add("all_export_of_star_imported_name_lost")
             if a == "froms_to_imports" and any(f.startswith("from_") or f.startswith("rel_") for f in forms):
                 hz.add("all_export_of_from_imported_name_lost_by_froms_to_imports")
@@ -180,7 +184,7 @@ def hazards(case):
         hz.add("aliased_from_import_subsumed_by_star_import")
     if a == "froms_to_imports" and st_ & {"rel_from_dot", "from_pkg_mod"}:
         hz.add("froms_to_imports_of_a_module_imports_only_the_package")
-    if a in ("organize_imports", "handle_long_imports") and (("star" in st_ and st_ & {"from_lib", "from_lib_multi"}) or ("rel_star" in st_ and st_ & {"rel_from_mod", "rel_from_multi"})):
+    if a in ("organize_imports", "handle_long_imports") and (("star" in st_ and st_ & {"from_lib", "from_lib_multi", "from_lib_builtin"}) or ("rel_star" in st_ and st_ & {"rel_from_mod", "rel_from_multi"})):
         hz.add("star_import_dropped_on_reapplication_next_to_explicit_from_import")
     if a == "froms_to_imports" and "import_dotted_as" in st_ and st_ & {"rel_from_mod", "rel_from_multi", "rel_star"}:
         hz.add("froms_to_imports_reapplied_drops_aliased_import_of_same_module")
@@ -191,6 +195,9 @@ def hazards(case):
         # a dotted `import pkg.x...` whose own path the code does not use survives the first application (the name pkg is
         # "used") and is removed by the second one, once `import pkg.b` provides pkg
         hz.add("froms_to_imports_reapplied_drops_package_import_named_only_in_all")
+    if a in ("organize_imports", "handle_long_imports") and {"star2", "stdlib_multi"} <= st_:
+        # `import sys, json` next to a star import whose module also passes json on
+        hz.add("plain_import_dropped_on_reapplication_next_to_star_import_of_the_same_name")
     if a == "organize_imports" and case["prefs"]["sort_imports_alphabetically"] and ({"import_lib", "import_lib_as"} <= st_ or {"import_dotted_as", "from_pkg_mod"} <= st_):
         hz.add("organize_imports_sort_unstable_for_same_module")
     return hz
